@@ -1,7 +1,243 @@
 package main
 
-// tryReplay turns a solver model into a concrete run of the real function (per-function drivers).
-// Returns whether the failure was confirmed on the real code, and a text report.
+// Replay of solver counterexamples on the real code.
+//
+// A driver (/verif/replay_drivers/*.tmpl) names the function it serves, the package directory, the
+// SMT terms whose model values it needs, and a Go test template.  The test is injected into the
+// real package with `go test -overlay` (nothing is written into /repo); it calls the real function
+// on the model's input and re-evaluates the run-time checkable part of the violated clause.
+// Output containing REPLAY-CONFIRMED means the violation was reproduced on the real code.
+
+import (
+	"bytes"
+	"context"
+	"encoding/json"
+	"fmt"
+	"os"
+	"os/exec"
+	"path/filepath"
+	"regexp"
+	"strings"
+	"time"
+)
+
+type replayDriver struct {
+	Key   string
+	Pkg   string
+	Gets  [][2]string // name, smt term
+	Body  string
+	File  string
+	Label string // optional: only for obligations containing this text
+}
+
+func loadDrivers() []*replayDriver {
+	files, _ := filepath.Glob(filepath.Join(verifDir, "replay_drivers", "*.tmpl"))
+	var out []*replayDriver
+	for _, f := range files {
+		data, err := os.ReadFile(f)
+		if err != nil {
+			continue
+		}
+		parts := strings.SplitN(string(data), "\n---\n", 2)
+		if len(parts) != 2 {
+			continue
+		}
+		d := &replayDriver{Body: parts[1], File: f}
+		for _, ln := range strings.Split(parts[0], "\n") {
+			ln = strings.TrimSpace(strings.TrimPrefix(strings.TrimSpace(ln), "#"))
+			switch {
+			case strings.HasPrefix(ln, "key:"):
+				d.Key = strings.TrimSpace(ln[4:])
+			case strings.HasPrefix(ln, "pkg:"):
+				d.Pkg = strings.TrimSpace(ln[4:])
+			case strings.HasPrefix(ln, "label:"):
+				d.Label = strings.TrimSpace(ln[6:])
+			case strings.HasPrefix(ln, "get "):
+				kv := strings.SplitN(ln[4:], "=", 2)
+				if len(kv) == 2 {
+					d.Gets = append(d.Gets, [2]string{strings.TrimSpace(kv[0]), strings.TrimSpace(kv[1])})
+				}
+			}
+		}
+		out = append(out, d)
+	}
+	return out
+}
+
+// sexpr reader (just enough for get-value output)
+func readSexprs(s string) []any {
+	var stack [][]any
+	cur := []any{}
+	i := 0
+	for i < len(s) {
+		c := s[i]
+		switch {
+		case c == '(':
+			stack = append(stack, cur)
+			cur = []any{}
+			i++
+		case c == ')':
+			if len(stack) == 0 {
+				return cur
+			}
+			done := cur
+			cur = stack[len(stack)-1]
+			stack = stack[:len(stack)-1]
+			cur = append(cur, done)
+			i++
+		case c == ' ' || c == '\n' || c == '\t' || c == '\r':
+			i++
+		case c == '|':
+			j := strings.IndexByte(s[i+1:], '|')
+			if j < 0 {
+				return cur
+			}
+			cur = append(cur, s[i:i+j+2])
+			i += j + 2
+		case c == '"':
+			j := strings.IndexByte(s[i+1:], '"')
+			if j < 0 {
+				return cur
+			}
+			cur = append(cur, s[i:i+j+2])
+			i += j + 2
+		default:
+			j := i
+			for j < len(s) && !strings.ContainsRune("() \n\t\r", rune(s[j])) {
+				j++
+			}
+			cur = append(cur, s[i:j])
+			i = j
+		}
+	}
+	return cur
+}
+
+func sexprString(x any) string {
+	switch v := x.(type) {
+	case string:
+		return v
+	case []any:
+		var ps []string
+		for _, e := range v {
+			ps = append(ps, sexprString(e))
+		}
+		return "(" + strings.Join(ps, " ") + ")"
+	}
+	return "?"
+}
+
+// modelValue renders an SMT value as a Go literal where possible (integers, booleans).
+func modelValue(x any) string {
+	switch v := x.(type) {
+	case string:
+		return v
+	case []any:
+		if len(v) == 2 && v[0] == "-" {
+			return "-" + modelValue(v[1])
+		}
+	}
+	return sexprString(x)
+}
+
+var tmplVar = regexp.MustCompile(`\{\{([A-Za-z0-9_]+)\}\}`)
+
 func tryReplay(prog *Program, v violation) (bool, string) {
-	return false, "no replay driver for this function; the model below is the verifier's counterexample (possibly a loop-head or post-havoc state)\n"
+	key := v.obl
+	if i := strings.Index(key, "#"); i >= 0 {
+		key = key[:i]
+	}
+	var drv *replayDriver
+	for _, d := range loadDrivers() {
+		if d.Key == key && (d.Label == "" || strings.Contains(v.obl, d.Label)) {
+			drv = d
+			break
+		}
+	}
+	if drv == nil {
+		return false, "no replay driver for " + key + "; the model below is the verifier's counterexample (it may describe a loop-head or post-havoc state)\n"
+	}
+	if v.oblRef == nil {
+		return false, "replay: obligation text unavailable\n"
+	}
+	// evaluate the requested terms in the model
+	txt := obligationText(v.oblRef, true)
+	var terms []string
+	for _, g := range drv.Gets {
+		terms = append(terms, g[1])
+	}
+	txt += "(get-value (" + strings.Join(terms, " ") + "))\n"
+	dir, err := os.MkdirTemp("", "gbv-replay-")
+	if err != nil {
+		return false, "replay: " + err.Error() + "\n"
+	}
+	defer os.RemoveAll(dir)
+	smt := filepath.Join(dir, "q.smt2")
+	os.WriteFile(smt, []byte(txt), 0o644)
+	var out string
+	for _, c := range solvers {
+		if c.name == v.oblRef.Solver {
+			_, out = runOne(context.Background(), c, smt, 20, 0)
+		}
+	}
+	idx := strings.Index(out, "((")
+	if !strings.HasPrefix(strings.TrimSpace(out), "sat") || idx < 0 {
+		return false, "replay: could not obtain model values:\n" + out + "\n"
+	}
+	vals := map[string]string{}
+	parsed := readSexprs(out[idx:])
+	if len(parsed) == 1 {
+		if lst, ok := parsed[0].([]any); ok {
+			for i, pair := range lst {
+				if p, ok := pair.([]any); ok && len(p) == 2 && i < len(drv.Gets) {
+					vals[drv.Gets[i][0]] = modelValue(p[1])
+				}
+			}
+		}
+	}
+	var report strings.Builder
+	fmt.Fprintf(&report, "replay driver: %s\nmodel values: %v\n", filepath.Base(drv.File), vals)
+	body := tmplVar.ReplaceAllStringFunc(drv.Body, func(m string) string {
+		name := m[2 : len(m)-2]
+		if name == "OBLIGATION" {
+			return fmt.Sprintf("%q", v.obl)
+		}
+		if val, ok := vals[name]; ok {
+			return val
+		}
+		return "0"
+	})
+	ok, testOut := runOverlayTest(prog.RepoDir, drv.Pkg, body, dir)
+	report.WriteString("---- generated test ----\n" + body + "\n---- go test output ----\n" + testOut + "\n")
+	if ok {
+		report.WriteString("RESULT: the violation was reproduced on the real code\n")
+	} else {
+		report.WriteString("RESULT: the model input did not reproduce the violation on the real code\n")
+	}
+	return ok, report.String()
+}
+
+// runOverlayTest injects a test file into pkgDir (relative to the repo) with -overlay and runs it.
+// Returns true when the output contains REPLAY-CONFIRMED.
+func runOverlayTest(repoDir, pkgDir, src, tmp string) (bool, string) {
+	testFile := filepath.Join(tmp, "zz_gbv_replay_test.go")
+	os.WriteFile(testFile, []byte(src), 0o644)
+	ov := map[string]map[string]string{"Replace": {filepath.Join(repoDir, pkgDir, "zz_gbv_replay_test.go"): testFile}}
+	data, _ := json.Marshal(ov)
+	ovFile := filepath.Join(tmp, "overlay.json")
+	os.WriteFile(ovFile, data, 0o644)
+	ctx, cancel := context.WithTimeout(context.Background(), 180*time.Second)
+	defer cancel()
+	cmd := exec.CommandContext(ctx, "go", "test", "-overlay", ovFile, "-vet=off", "-count=1", "-timeout", "60s", "-run", "TestGbvReplay", "./"+pkgDir)
+	cmd.Dir = repoDir
+	cmd.Env = append(os.Environ(), "GOFLAGS=-mod=mod", "GOPROXY=off", "GOSUMDB=off", "GOTOOLCHAIN=local")
+	var out bytes.Buffer
+	cmd.Stdout = &out
+	cmd.Stderr = &out
+	_ = cmd.Run()
+	o := out.String()
+	if len(o) > 8000 {
+		o = o[:8000] + "\n...[truncated]"
+	}
+	return strings.Contains(o, "REPLAY-CONFIRMED"), o
 }
